@@ -765,7 +765,7 @@ func (x *repoExec) perform(w *repoWorld, pre *absState, preFacts map[string]*art
 		}
 		var r runResult
 		if x.nativeBin != "" {
-			r = x.nativeRun(nw.fs, a.Fl)
+			r = x.nativeRun(nw.fs, a.Fl, nw.par)
 		} else {
 			r = signRun(nw.fs, flagsToStrat(a.Fl), x.aliasToEnt)
 		}
@@ -829,7 +829,7 @@ func (x *repoExec) perform(w *repoWorld, pre *absState, preFacts map[string]*art
 				fs2.ResetLog()
 				var r2 runResult
 				if x.nativeBin != "" {
-					r2 = x.nativeRun(fs2, a.Fl)
+					r2 = x.nativeRun(fs2, a.Fl, nw.par)
 				} else {
 					r2 = signRun(fs2, flagsToStrat(a.Fl), x.aliasToEnt)
 				}
@@ -1220,7 +1220,7 @@ func expiredTwin(own, issuerFile []byte) []byte {
 // i.e. in the past), the gopki BINARY runs `sign` on it with the answer `y`, and whatever it changed is read back
 // (new logical ticks in the order of the native modification times). The plan is read off the changed artifacts in
 // the order they were written.
-func (x *repoExec) nativeRun(fsys *simfs.FS, fl []string) runResult {
+func (x *repoExec) nativeRun(fsys *simfs.FS, fl []string, par map[string]string) runResult {
 	os.RemoveAll(x.nativeDir)
 	type st struct {
 		data []byte
@@ -1307,11 +1307,24 @@ func (x *repoExec) nativeRun(fsys *simfs.FS, fl []string) runResult {
 		}
 		return 1 << 20
 	}
+	// where the log does not tell (its wording is not part of any property) and the native times do not either, the order
+	// of two writes was NOT observed: the benefit of the doubt goes to the program (issuers first). The in-process backend
+	// logs every WriteFile call and decides the write order for real.
+	depth := func(c ch) int {
+		d, e := 0, artOf[c.name]
+		for e != "" && par[e] != "" && d < 16 {
+			e, d = par[e], d+1
+		}
+		return d
+	}
 	sort.SliceStable(changed, func(i, j int) bool {
 		if pos(changed[i]) != pos(changed[j]) {
 			return pos(changed[i]) < pos(changed[j])
 		}
-		return changed[i].mt < changed[j].mt
+		if changed[i].mt != changed[j].mt {
+			return changed[i].mt < changed[j].mt
+		}
+		return depth(changed[i]) < depth(changed[j])
 	})
 	for _, c := range changed {
 		_, hadCert := fsys.Files[c.name] // "replace" = the artifact file was there
